@@ -36,6 +36,7 @@ inductive Err where
 inductive Ext where
   | set                  -- has a value and is explicitly set on its owner (`has_set` true)
   | avail                -- has a value (computed, not set)
+  | cached               -- has a value, not set, but already in the `__cache__` of its owner (it has been read before)
   | none                 -- (opaque bodies only) the body returns `None`
   | missing (e : Err)    -- reading it raises `e`
   deriving Repr, DecidableEq, Inhabited
@@ -56,12 +57,18 @@ structure World where
 
 /-- presence state of the instance -/
 structure Obj where
-  set : List String                 -- names in `__dict__`
+  set : List String                 -- names in `__dict__` (holding a value)
   cache : List (String × Expr)      -- `__cache__`, newest binding first, one binding per name
   active : List String              -- keys of the functions currently executing on this instance
+  noneSet : List String := []       -- names in `__dict__` holding `None` (`Roll(…, working_velocity=None)`): PRESENT for
+                                    -- `has_set`, skipped by `Hook.__get__` (`if result is not None`)
   deriving Repr, DecidableEq, Inhabited
 
-def Obj.fresh (set : List String) : Obj := { set := set, cache := [], active := [] }
+def Obj.fresh (set : List String) (noneSet : List String := []) : Obj :=
+  { set := set, cache := [], active := [], noneSet := noneSet }
+
+/-- `name in self.__dict__` -/
+def Obj.hasSet (o : Obj) (n : String) : Bool := o.set.contains n || o.noneSet.contains n
 
 def lookup {β : Type} (n : String) : List (String × β) → Option β
   | [] => Option.none
@@ -165,17 +172,20 @@ structure M where
 def extRead (n : String) : Ext → Res
   | .set => .val (.var n)
   | .avail => .val (.var n)
+  | .cached => .val (.var n)
   | .none => .err .unmodelled
   | .missing e => .err e
 
-/-- a test on another object `obj` (a `.`-path below the instance): `none` ⇒ unmodelled -/
-def extTest (w : World) (obj attr : String) (wantSet : Bool) : Res ⊕ Bool :=
+/-- a test on another object `obj` (a `.`-path below the instance): `none` ⇒ unmodelled.
+    `wantSet`: a presence test (`has_set`, `has_set_or_cached`) instead of `has_value`; `orCached`: `has_set_or_cached` -/
+def extTest (w : World) (obj attr : String) (wantSet : Bool) (orCached : Bool := false) : Res ⊕ Bool :=
   match lookup obj w.ext with
   | some (.missing e) => .inl (.err e)               -- e.g. `self.in_profile` is `None`
   | _ =>
     match lookup (obj ++ "." ++ attr) w.ext with
     | some .set => .inr true
     | some .avail => .inr (!wantSet)
+    | some .cached => .inr (!wantSet || orCached)
     | some (.missing .attr) => .inr false
     | some (.missing e) => if wantSet then .inr false else .inl (.err e)
     | _ => .inl (.err .unmodelled)
@@ -223,12 +233,12 @@ def step (w : World) (m : M) : M :=
         | .inr v => continueWith v
       match atom with
       | .cycle => continueWith cyc
-      | .hasSet "" n => continueWith (m.obj.set.contains n)
+      | .hasSet "" n => continueWith (m.obj.hasSet n)
       | .hasCached "" n => continueWith ((lookup n m.obj.cache).isSome)
-      | .hasSetOrCached "" n => continueWith (m.obj.set.contains n || (lookup n m.obj.cache).isSome)
+      | .hasSetOrCached "" n => continueWith (m.obj.hasSet n || (lookup n m.obj.cache).isSome)
       | .hasValue "" n => { m with ctl := .read n, stack := .altsF key cyc ((g, b) :: rest) memo atom :: m.stack }
       | .hasSet o n => test (extTest w o n true)
-      | .hasSetOrCached o n => test (extTest w o n true)
+      | .hasSetOrCached o n => test (extTest w o n true true)
       | .hasValue o n => test (extTest w o n false)
       | _ => { m with ctl := .ret (.err .unmodelled) }
   | .vars done [] e => { m with ctl := .ret (.val (subst done e)) }
@@ -298,6 +308,10 @@ def readAll (w : World) (fuel : Nat) : Obj → List String → List Read × Obj
 def scenario (w : World) (fuel : Nat) (sup ord : List String) : List Read × Obj :=
   readAll w fuel (Obj.fresh sup) ord
 
+/-- … with the names `nones` given explicitly as `None` -/
+def scenarioN (w : World) (fuel : Nat) (sup nones ord : List String) : List Read × Obj :=
+  readAll w fuel (Obj.fresh sup nones) ord
+
 /-! ### enumeration helpers (used INSIDE the theorems: all subsets × all read orders) -/
 
 def sublists : List String → List (List String)
@@ -329,6 +343,7 @@ def availExt (w : World) : List String :=
   w.ext.filterMap fun p => match p.2 with
     | .set => some p.1
     | .avail => some p.1
+    | .cached => some p.1
     | _ => Option.none
 
 def closeStep (rules : List (String × List String)) (known : List String) : List String :=
@@ -368,6 +383,24 @@ def okRun (s : Spec) (fuel : Nat) (g : GW) (sup ord : List String) : Bool :=
 /-- EVERY world × EVERY subset of supplied members × EVERY read order -/
 def checkAll (s : Spec) (fuel : Nat) (worlds : List GW) : Bool :=
   worlds.all fun g => (sublists s.members).all fun sup => (perms s.members).all fun ord => okRun s fuel g sup ord
+
+/-! ### a hook given as `None` is not supplied
+
+  `Hook.__get__` skips a `None` in `__dict__`, so an object that carries `h = None` must answer every read of the members
+  exactly as the object that does not mention `h` — which it does as long as no implementation tests `h` for PRESENCE
+  (`has_set`, `has_set_or_cached`).  `checkNone` compares, for every world × every hook `h` of `hs` × every subset of the
+  other members × every read order, the complete results (values symbolically, error kinds) of the two runs; both must
+  finish and leave no mark. -/
+
+def sameRun (w : World) (fuel : Nat) (base sup : List String) (h : String) (ord : List String) : Bool :=
+  let a := scenarioN w fuel (base ++ sup) [h] ord
+  let b := scenario w fuel (base ++ sup) ord
+  a.1.map (·.res) == b.1.map (·.res) && a.1.all (fun r => r.res != .err .fuel) && b.1.all (fun r => r.res != .err .fuel)
+    && a.2.active.isEmpty && a.1.map (·.name) == ord
+
+def checkNone (members : List String) (fuel : Nat) (worlds : List GW) (hs : List String) : Bool :=
+  worlds.all fun g => hs.all fun h => (sublists (members.filter (· ≠ h))).all fun sup =>
+    (perms members).all fun ord => sameRun g.world fuel g.base sup h ord
 
 def dedupE : List Expr → List Expr
   | [] => []
